@@ -73,6 +73,13 @@ func Content(seed, size int) []byte {
 		x ^= x << 17
 		b[i] = byte(x >> 24)
 	}
+	// large contents carry long runs of zero bytes (sparse-file style optimisations must not
+	// leave stale bytes behind them)
+	if size >= 9000 {
+		for i := size / 5; i < size/5+2*4096+100 && i < size-1; i++ {
+			b[i] = 0
+		}
+	}
 	return b
 }
 
@@ -129,8 +136,15 @@ func (r *ChunkReader) Seek(off int64, whence int) (int64, error) {
 		r.fire("reader-seek-error")
 		return 0, fmt.Errorf("injected seek error")
 	}
+	if whence == io.SeekEnd && off == 0 {
+		// asking for the size: answered from the underlying data, not a new pass
+		return int64(len(r.Data)), nil
+	}
+	if whence == io.SeekCurrent && off == 0 {
+		return int64(r.pos), nil
+	}
 	if whence != io.SeekStart || off != 0 {
-		return 0, fmt.Errorf("ChunkReader: only Seek(0,0) is supported")
+		return 0, fmt.Errorf("ChunkReader: unsupported Seek(%d, %d)", off, whence)
 	}
 	r.pos = 0
 	r.Pass++
@@ -139,6 +153,14 @@ func (r *ChunkReader) Seek(off int64, whence int) (int64, error) {
 		r.extraLeft = r.ExtraBytes
 	}
 	return 0, nil
+}
+
+// Len reports the unread length, as bytes.Reader and strings.Reader do.
+func (r *ChunkReader) Len() int {
+	if r.pos >= len(r.Data) {
+		return 0
+	}
+	return len(r.Data) - r.pos
 }
 
 func (r *ChunkReader) Read(p []byte) (int, error) {
